@@ -149,24 +149,34 @@ class UnimodalPdf(DensityEstimator):
         inverse_sort = sorter.argsort()
         v = x[sorter]
         intervals = zeros(x.size)
-        # probability below 'lwr_limit' - small, but not zero for heavy-tailed
-        # or strongly skewed estimates
-        # (integrated in units of the width of the estimate, so the result
-        # does not depend on the scale of the data)
-        s0 = self.MAP[1]
-        if v[0] > self.lwr_limit:
-            tail = lambda u: self.__call__(self.lwr_limit + u * s0) * s0
-            intervals[0] = (
-                quad(tail, -inf, 0.0)[0]
-                + quad(self.__call__, self.lwr_limit, v[0])[0]
-            )
-        else:
-            tail = lambda u: self.__call__(v[0] + u * s0) * s0
-            intervals[0] = quad(tail, -inf, 0.0)[0]
+        # the probability below the first point, then between successive points
+        intervals[0] = self._integral(-inf, v[0])
         for i in range(1, x.size):
-            intervals[i] = quad(self.__call__, v[i - 1], v[i])[0]
+            intervals[i] = self._integral(v[i - 1], v[i])
         integral = intervals.cumsum()[inverse_sort]
         return integral if x.size > 1 else integral[0]
+
+    def _integral(self, a: float, b: float) -> float:
+        """
+        Integral of the estimate between a and b (a may be -inf). The range is split
+        at 'lwr_limit' and 'upr_limit': the tails beyond them (small, but not zero for
+        heavy-tailed or strongly skewed estimates) are integrated as semi-infinite
+        integrals in units of the width of the estimate, so that the result does not
+        depend on the scale of the data, and the adaptive quadrature of the central
+        part can never step over the peak however far apart a and b are.
+        """
+        s0 = self.MAP[1]
+        lwr, upr = self.lwr_limit, self.upr_limit
+        below = lambda t: quad(lambda u: self.__call__(t + u * s0) * s0, -inf, 0.0)[0]
+        above = lambda t: quad(lambda u: self.__call__(t + u * s0) * s0, 0.0, inf)[0]
+        total = 0.0
+        if a < lwr:
+            total += below(min(b, lwr)) - (below(a) if a > -inf else 0.0)
+        if b > lwr and a < upr:
+            total += quad(self.__call__, max(a, lwr), min(b, upr))[0]
+        if b > upr:
+            total += above(max(a, upr)) - above(b)
+        return total
 
     def evaluate_model(self, x: ndarray, theta: ndarray) -> ndarray:
         return self.pdf_model(x, theta) / self.norm(theta)
